@@ -1,3 +1,4 @@
+import PonyVerif.Gen.DbSessionGen
 /-
   C18 — executable model of `db_session` (pony/orm/core.py: DBSessionContextManager, commit(), rollback(),
   rollback_and_reraise), of the Flask glue (pony/flask/__init__.py) and the Bottle plugin
@@ -22,6 +23,7 @@
   number and order of body executions and what each execution sees can be compared with the real code.
 -/
 namespace PonyVerif.Model.DbSession
+open PonyVerif.Gen
 
 abbrev Write := Nat
 
@@ -66,6 +68,8 @@ structure Opts where
   serializable : Bool := false
   allowed : Exc → PredR := fun _ => .no
   retryable : Exc → PredR := fun _ => .no
+  allowedCallable : Bool := false      -- `callable(db_session.allowed_exceptions)` (which branch of the code asks the predicate)
+  retryCallable : Bool := false        -- `callable(db_session.retry_exceptions)`
   sid : Nat := 0
   deriving Inhabited
 
@@ -106,30 +110,34 @@ def enter (o : Opts) (s : St) : Except Exc St :=
   match s.session with
   | none =>
     if s.counter ≠ 0 then .error .assertion
-    else .ok { s with session := some o.sess, counter := s.counter + 1 }
+    else .ok { s with session := some o.sess, counter := DbSessionGen.counterAfterEnter s.counter }
   | some cur =>
     if o.ddl && !cur.ddl then .error .ddlInsideNonDdl
     else if o.serializable && !cur.serializable then .error .serInsideNonSer
-    else .ok { s with counter := s.counter + 1 }
+    else .ok { s with counter := DbSessionGen.counterAfterEnter s.counter }
+
+/-- the value of `can_commit`: the if/elif/else chain of `_commit_or_rollback` as regenerated from the source
+    (`Gen.DbSessionGen.canCommit`), instantiated with what the list check / the callable answer for this exception -/
+def allowedDecision (o : Opts) (exc : Option Exc) : PredR :=
+  match exc with
+  | none => DbSessionGen.canCommit PredR.yes PredR.no true o.allowedCallable PredR.no PredR.no
+  | some e => DbSessionGen.canCommit PredR.yes PredR.no false o.allowedCallable (o.allowed e) (o.allowed e)
 
 /-- `DBSessionContextManager._commit_or_rollback`; the second component is the exception it raises itself -/
 def commitOrRollback (env : Env) (o : Opts) (exc : Option Exc) (s : St) : St × Option Exc :=
   let r : St × Option Exc :=
-    match exc with
-    | none => commit env s
-    | some e =>
-      match o.allowed e with
-      | .raises e' => (rollback s, some e')      -- `except: rollback_and_reraise(sys.exc_info())`
-      | .yes => commit env s
-      | .no => (rollback s, none)
-  ({ r.1 with session := none }, r.2)            -- `finally: local.db_session = None`
+    match allowedDecision o exc with
+    | .raises e' => (rollback s, some e')      -- `except: rollback_and_reraise(sys.exc_info())`
+    | .yes => if DbSessionGen.commitBranchCommits then commit env s else (s, none)
+    | .no => if DbSessionGen.elseBranchRollsBack then (rollback s, none) else (s, none)
+  (if DbSessionGen.clearsSession then { r.1 with session := none } else r.1, r.2)   -- `finally: local.db_session = None`
 
 /-- `DBSessionContextManager.__exit__` -/
 def exit (env : Env) (o : Opts) (exc : Option Exc) (s : St) : St × Option Exc :=
-  let s1 := { s with counter := s.counter - 1 }
-  if s1.counter = 0 then
+  let s1 := { s with counter := DbSessionGen.counterAfterExit s.counter }
+  if DbSessionGen.exitIsOutermost s1.counter then
     if s1.session.map (·.sid) ≠ some o.sid then (s1, some .assertion)     -- `assert local.db_session is db_session`
-    else commitOrRollback env o exc s1
+    else commitOrRollback env o (if DbSessionGen.exitPassesExc then exc else none) s1
   else (s1, none)
 
 /-- `with db_session(**o): body` — `__enter__`, body, `__exit__` with the semantics of the `with` statement -/
@@ -146,7 +154,10 @@ def cm (env : Env) (o : Opts) (run : St → St × Outcome) (s : St) : St × Outc
 
 /-- the `except:` clause's decision in `new_func` -/
 def doRetry (env : Env) (o : Opts) (e : Exc) : PredR :=
-  if env.shouldRetry e then .yes else o.retryable e
+  DbSessionGen.doRetry PredR.yes PredR.no (env.shouldRetry e) o.retryCallable (o.retryable e) (o.retryable e)
+
+/-- what the `finally:` clause of the retry loop hands to `__exit__` -/
+def loopExc (e : Exc) : Option Exc := if DbSessionGen.loopExitPassesExc then some e else none
 
 /-- one record per execution of the decorated function's body (ghost output of the loop) -/
 structure Att where
@@ -172,7 +183,7 @@ inductive AttOut where
 def attempt (env : Env) (o : Opts) (run : Nat → St → St × Outcome) (i : Nat) (s1 : St) : St × AttOut × Att :=
   let b := run i s1
   let c : St × Option Exc := match b.2 with
-    | .ret => commit env b.1
+    | .ret => if DbSessionGen.commitAfterBody then commit env b.1 else (b.1, none)
     | .raise e => (b.1, some e)
   let a : Att := ⟨s1, b.1.pending, b.2, c.2⟩
   match c.2 with
@@ -182,13 +193,13 @@ def attempt (env : Env) (o : Opts) (run : Nat → St → St × Outcome) (i : Nat
   | some e =>
     match doRetry env o e with
     | .yes =>
-      let x := exit env o (some e) (rollback c.1)          -- `rollback()`, then `finally: __exit__(exc_type, exc, tb)`
+      let x := exit env o (loopExc e) (if DbSessionGen.retryPathRollsBack then rollback c.1 else c.1)   -- `rollback()`, then `finally: __exit__(exc_type, exc, tb)`
       (x.1, (match x.2 with | some e' => .done (.raise e') | none => .again e), a)
     | .no =>
-      let x := exit env o (some e) c.1                     -- `raise`, then `finally: __exit__(...)`
+      let x := exit env o (loopExc e) c.1                  -- `raise`, then `finally: __exit__(...)`
       (x.1, .done (.raise (x.2.getD e)), a)
     | .raises e' =>
-      let x := exit env o (some e) c.1                     -- the callable raised inside `except:`
+      let x := exit env o (loopExc e) c.1                  -- the callable raised inside `except:`
       (x.1, .done (.raise (x.2.getD e')), a)
 
 /-- `for i in range(db_session.retry+1): ...` followed by `reraise(exc_type, exc, tb)` -/
@@ -211,7 +222,7 @@ def decorated (env : Env) (o : Opts) (run : Nat → St → St × Outcome) (s : S
     else
       let b := run 0 s                                       -- `return func(*args, **kwargs)`
       ⟨b.1, b.2, []⟩
-  else loop env o run (o.retry + 1) 0 none s
+  else loop env o run (DbSessionGen.loopFuel o.retry) 0 none s
 
 /-! ### generator functions -/
 
@@ -244,7 +255,7 @@ def wrappedInteract (env : Env) (o : Opts) (seg : Seg) (resume : Resume) (copy :
   if s.session.isSome then (s, copy, .raised .genInsideSession)
   else if s.counter ≠ 0 ∨ s.pending ≠ [] then (s, copy, .raised .assertion)
   else
-    let s1 := { s with counter := 1, session := some o.sess, pending := s.pending ++ copy }
+    let s1 := { s with counter := DbSessionGen.genCounterInside, session := some o.sess, pending := s.pending ++ copy }
     let r : St × StepOut :=
       match resume with
       | .close => (rollback s1, .raised .generatorExit)          -- `iterator.close(); reraise` → `rollback_and_reraise`
@@ -264,7 +275,7 @@ def wrappedInteract (env : Env) (o : Opts) (seg : Seg) (resume : Resume) (copy :
           | .yield =>
             if s4.pending ≠ [] then (rollback s4, .raised .genSuspendDirty) else (s4, .yielded)
     -- `finally: db2cache_copy.update(local.db2cache); local.db2cache.clear(); counter = 0; db_session = None`
-    ({ r.1 with pending := [], counter := 0, session := none }, r.1.pending, r.2)
+    ({ r.1 with pending := [], counter := DbSessionGen.genCounterAfter, session := none }, r.1.pending, r.2)
 
 def iterLoop (env : Env) (o : Opts) : List (Seg × Resume) → List Write → St → St × Outcome
   | [], _, s => (s, .ret)                       -- the consumer stops; the generator stays suspended
@@ -294,7 +305,7 @@ def flaskEnter (env : Env) (s : St) : Option Opts × Except Exc St :=
 def flaskExit (env : Env) (ponySession : Option Opts) (exception : Option Exc) (s : St) : St × Option Exc :=
   match ponySession with
   | none => (s, none)
-  | some session => exit env session exception s
+  | some session => exit env session (if DbSessionGen.flaskExitPassesType then exception else none) s
 
 /-- one request: before_request hooks (`hooked` = Pony's hook is reached), the view, the teardown hooks with the
     exception of the request; an exception raised by the teardown hook replaces the outcome -/
@@ -308,8 +319,9 @@ def flaskRequest (env : Env) (hooked : Bool) (view : St → St × Outcome) (s : 
 
 /-! ### Bottle: `PonyPlugin.apply` = `db_session(allowed_exceptions=is_allowed_exception)(callback)` -/
 
-def bottleOpts (env : Env) (isRedirect : Exc → Bool) : Opts :=
-  { allowed := fun e => if isRedirect e then .yes else .no,
+def bottleOpts (env : Env) (isResp isErr : Exc → Bool) : Opts :=
+  { allowed := fun e => if DbSessionGen.isAllowedException (isResp e) (isErr e) then .yes else .no,
+    allowedCallable := true,
     retryable := fun e => if env.isTx e then .yes else .no }
 
 /-! ### programs: arbitrary nesting of the above -/
